@@ -839,3 +839,79 @@ pub fn grow_case(a: &[u128]) -> Vec<u128> {
     let cp = o1.data.iter().zip(o2.data.iter()).take_while(|(x, y)| x == y).count();
     vec![o1.data.len() as u128, digest(&o1.data) as u128, o2.data.len() as u128, digest(&o2.data) as u128, cp as u128]
 }
+
+/// poststep: args as `decode` (driver 0 = sync iterator, 1 = fsm decoder); the decoder is polled again after
+/// errors, until it ends, panics, or `limit` calls were made.
+///  -> events, 4 numbers each: [0,0,0,0] end; [1,node,64,dg] Ok parent; [2,offset,len,dg] Ok leaf; [3,rc,payload,0] Err; [9,0,0,0] panic
+pub fn poststep(a: &[u128]) -> Vec<u128> {
+    use std::panic::{catch_unwind, AssertUnwindSafe};
+    let data = gen_data(a[0] as u64, a[1] as u64, a[2] as usize);
+    let bs = a[3] as u8;
+    let claimed = a[4] as u64;
+    let driver = a[5];
+    let bs_s = a[7] as u8;
+    let size2 = a[8] as usize;
+    let seed2 = a[9] as u64;
+    let (q, i) = take_list(a, 10);
+    let (qs, i) = take_list(a, i);
+    let ops = &a[i..];
+    let base = refenc::flatten(&refenc::encode(&data, bs_s, &refenc::sel_fn(qs.clone(), data.len())));
+    let data2 = gen_data(a[0] as u64, seed2, size2);
+    let alt = refenc::flatten(&refenc::encode(&data2, bs, &refenc::sel_fn(q.clone(), data2.len())));
+    let stream = build_stream(base, &alt, ops);
+    let root = refenc::root(&data);
+    let t = tree(claimed, bs);
+    let ranges = mk_ranges(&q);
+    let limit = 64usize;
+    let mut ev: Vec<u128> = Vec::new();
+    let mut push_item = |ev: &mut Vec<u128>, r: Result<BaoContentItem, DecodeError>| match r {
+        Ok(BaoContentItem::Parent(Parent { node, pair })) => {
+            let mut p = pair.0.as_bytes().to_vec();
+            p.extend_from_slice(pair.1.as_bytes());
+            ev.extend_from_slice(&[1, nv(node) as u128, 64, digest(&p) as u128]);
+        }
+        Ok(BaoContentItem::Leaf(Leaf { offset, data })) => ev.extend_from_slice(&[2, offset as u128, data.len() as u128, digest(&data) as u128]),
+        Err(e) => {
+            let (rc, p) = dec_rc(&e);
+            ev.extend_from_slice(&[3, rc, p, 0]);
+        }
+    };
+    if driver == 0 {
+        let mut rd = Cursor::new(&stream[..]);
+        let mut it = sync::DecodeResponseIter::new(root, t, &mut rd, &ranges);
+        for _ in 0..limit {
+            match catch_unwind(AssertUnwindSafe(|| it.next())) {
+                Err(_) => {
+                    ev.extend_from_slice(&[9, 0, 0, 0]);
+                    std::mem::forget(it);
+                    return ev;
+                }
+                Ok(None) => {
+                    ev.extend_from_slice(&[0, 0, 0, 0]);
+                    break;
+                }
+                Ok(Some(r)) => push_item(&mut ev, r),
+            }
+        }
+    } else {
+        let mut dec = Some(fsm::ResponseDecoder::new(root, ranges.clone(), t, &stream[..]));
+        for _ in 0..limit {
+            let d = dec.take().unwrap();
+            match catch_unwind(AssertUnwindSafe(|| block_on(d.next()))) {
+                Err(_) => {
+                    ev.extend_from_slice(&[9, 0, 0, 0]);
+                    return ev;
+                }
+                Ok(fsm::ResponseDecoderNext::Done(_)) => {
+                    ev.extend_from_slice(&[0, 0, 0, 0]);
+                    break;
+                }
+                Ok(fsm::ResponseDecoderNext::More((d2, r))) => {
+                    dec = Some(d2);
+                    push_item(&mut ev, r);
+                }
+            }
+        }
+    }
+    ev
+}
